@@ -38,6 +38,7 @@ type C13Case struct {
 	History []simrt.Msg    `json:"history"`
 	Events  []simrt.EvSpec `json:"events"`
 	Sched   simrt.Schedule `json:"sched"`
+	WS      *wsStallSpec   `json:"ws,omitempty"`
 	// a replay may pin one combination; zero values = enumerate all
 	OnlyCut  int    `json:"only_cut,omitempty"` // 1-based
 	OnlyMode string `json:"only_mode,omitempty"`
@@ -117,6 +118,12 @@ func (c13Engine) Gen(t *rapid.T, tier string) any {
 			e := simrt.EvSpec{Kind: 22242, CreatedAt: mwEpoch}
 			c.History = append(c.History, simrt.Msg{T: "AUTH", Ev: &e})
 		}
+	}
+	c.WS = &wsStallSpec{
+		Opt: wsOpt{SendTimeoutMs: rapid.SampledFrom([]int{1000, 10000}).Draw(t, "ws.sendtimeout"), PingMs: rapid.SampledFrom([]int{0, 5000, 60000}).Draw(t, "ws.ping"),
+			Rate: 10, Burst: 10, MaxLen: 100000},
+		Conn:       simrt.SimConnCfg{Chunk: rapid.SampledFrom([]int{16, 512, 4096, 65536}).Draw(t, "ws.chunk")},
+		StallAfter: rapid.SampledFrom([]int{0, 100, 3000}).Draw(t, "ws.stallafter"),
 	}
 	c.Sched = GenSchedule(t, 3000)
 	if c.Sched.SelMode == 0 {
@@ -243,6 +250,14 @@ type c13Mode struct {
 func (c13Engine) Exec(t *testing.T, cc any) *simrt.Result {
 	c := cc.(*C13Case)
 	total := &simrt.Result{}
+	if c.WS != nil && (c.OnlyMode == "" || c.OnlyMode == "ws-stall") {
+		r := wsStallRun(t, c.WS, c.Sched)
+		total.Violations = append(total.Violations, r.Violations...)
+		total.Harness = r.Harness
+		total.Trace = r.Trace
+		total.Stats = r.Stats
+		total.Stats.States = nil
+	}
 	modes := []c13Mode{{"cancel", false}, {"cancel", true}, {"closerecv", false}}
 	first := true
 	for cut := 0; cut <= len(c.History); cut++ {
@@ -252,6 +267,9 @@ func (c13Engine) Exec(t *testing.T, cc any) *simrt.Result {
 		for _, m := range modes {
 			name := fmt.Sprintf("%s/stall=%v", m.end, m.stall)
 			if c.OnlyMode != "" && c.OnlyMode != name {
+				continue
+			}
+			if total.Harness != "" {
 				continue
 			}
 			r := c13Run(t, c, cut, m)
